@@ -727,3 +727,74 @@ fire('c18-helper-deletes', ['C18'], 'C18.WRITES-STAY-HOME',
      ('labtech/storage.py', 'LocalStorage.delete', "shutil.rmtree(key_path)", "ensure_dict_key_str(key, exception_type=StorageError)\n            shutil.rmtree(key_path)"),
      ('labtech/storage.py', None, "from .types import Storage\n", "from .types import Storage\nfrom .utils import ensure_dict_key_str\n"),
      ('labtech/utils.py', 'ensure_dict_key_str', "    return cast(str, value)", "    import os\n    os.remove(value)\n    return cast(str, value)"))
+
+
+# -- round-3 refactoring forms: the generalised rules still bite when the new form is broken ---------------------------------
+_FLAG_DRAIN_OK = ("""            inner_timeout_seconds = timeout_seconds
+            while True:
+                try:
+                    future_id, result_or_ex = self._result_queue.get(True, timeout=inner_timeout_seconds)
+                except Empty:
+                    break
+
+                # Don't wait for the timeout on subsequent calls to
+                # self._result_queue.get()
+                inner_timeout_seconds = 0
+""", """            is_first_get = True
+            while True:
+                inner_timeout_seconds = timeout_seconds if is_first_get else 0
+                try:
+                    future_id, result_or_ex = self._result_queue.get(True, timeout=inner_timeout_seconds)
+                except Empty:
+                    break
+                is_first_get = False
+""")
+silent('c11-drain-flag-form', ['C11'], (PROC, 'ProcessExecutor._consume_result_queue', *_FLAG_DRAIN_OK))
+fire('c11-drain-flag-never-cleared', ['C11'], 'C11.DRAIN-BOUNDED',
+     (PROC, 'ProcessExecutor._consume_result_queue', _FLAG_DRAIN_OK[0], _FLAG_DRAIN_OK[1].replace("                is_first_get = False\n", "")))
+fire('c11-drain-flag-inverted', ['C11'], 'C11.DRAIN-BOUNDED',
+     (PROC, 'ProcessExecutor._consume_result_queue', _FLAG_DRAIN_OK[0], _FLAG_DRAIN_OK[1].replace("timeout_seconds if is_first_get else 0", "0 if is_first_get else timeout_seconds")))
+
+_SAVE_TRY = """        try:
+            metadata_file = storage.file_handle(task.cache_key, self.METADATA_FILENAME, mode='w')
+            with metadata_file:
+                json.dump(metadata, metadata_file, indent=2)
+            self.save_result(storage, task, task_result.value)
+        except BaseException:
+            # Do not leave behind a partial entry that would be
+            # reported as cached but cannot be loaded.
+            storage.delete(task.cache_key)
+            raise"""
+_SAVE_FLAG = """        entry_complete = False
+        try:
+            metadata_file = storage.file_handle(task.cache_key, self.METADATA_FILENAME, mode='w')
+            with metadata_file:
+                json.dump(metadata, metadata_file, indent=2)
+            self.save_result(storage, task, task_result.value)
+            entry_complete = True
+        finally:
+            if not entry_complete:
+                storage.delete(task.cache_key)"""
+silent('c12-rollback-flag-form', ['C12', 'C13'], ('labtech/cache.py', 'BaseCache.save', _SAVE_TRY, _SAVE_FLAG))
+fire('c12-rollback-flag-set-too-early', ['C12', 'C13'], 'C12.ROLLBACK-COVER',
+     ('labtech/cache.py', 'BaseCache.save', _SAVE_TRY, _SAVE_FLAG.replace("            self.save_result(storage, task, task_result.value)\n            entry_complete = True",
+                                                                             "            entry_complete = True\n            self.save_result(storage, task, task_result.value)")))
+fire('c12-rollback-flag-starts-true', ['C12', 'C13'], 'C12.ROLLBACK-COVER',
+     ('labtech/cache.py', 'BaseCache.save', _SAVE_TRY, _SAVE_FLAG.replace("entry_complete = False", "entry_complete = True", 1)))
+
+silent('c18-altsep-appended-when-present', ['C18'],
+       ('labtech/storage.py', 'validate_file_path_key', "    disallowed_key_chars = ['.', '/', '\\\\', os.path.sep, os.path.altsep]",
+        "    disallowed_key_chars = ['.', '/', '\\\\', os.path.sep]\n    if os.path.altsep is not None:\n        disallowed_key_chars.append(os.path.altsep)"))
+fire('c18-altsep-appended-when-absent', ['C18'], 'C18.VALIDATOR-SHAPE',
+     ('labtech/storage.py', 'validate_file_path_key', "    disallowed_key_chars = ['.', '/', '\\\\', os.path.sep, os.path.altsep]",
+      "    disallowed_key_chars = ['.', '/', '\\\\', os.path.sep]\n    if os.path.altsep is None:\n        disallowed_key_chars.append(os.path.altsep)"))
+
+silent('c07-hash-update-form', ['C07'],
+       ('labtech/cache.py', 'BaseCache.cache_key', "        hashed = hashlib.sha1(serialized_str).hexdigest()", "        hasher = hashlib.sha1()\n        hasher.update(serialized_str)\n        hashed = hasher.hexdigest()"))
+fire('c07-hash-update-of-partial-input', ['C07'], 'C07.FIELD-COVER',
+     ('labtech/cache.py', 'BaseCache.cache_key', "        hashed = hashlib.sha1(serialized_str).hexdigest()",
+      "        hasher = hashlib.sha1()\n        hasher.update(json.dumps(self.serializer.serialize_task(task)['__class__']).encode('utf-8'))\n        hashed = hasher.hexdigest()"))
+
+fire('c11-wait-timeout-closure-param-none', ['C11'], 'C11.WAIT-TIMEOUT',
+     (LAB, 'TaskCoordinator.run', "        def process_completed_tasks():", "        def process_completed_tasks(*, timeout_seconds=None):"),
+     (LAB, 'TaskCoordinator.run', "runner.wait(timeout_seconds=0.5)", "runner.wait(timeout_seconds=timeout_seconds)"))
